@@ -23,6 +23,85 @@ def depth_guard(fn):
     return None
 
 
+# reviewed numbers of constructs that abort the process when the parse state is not what they assume (file, kind) -> count on the reviewed tree
+REVIEWED_CRASH_PATHS = {
+    ('parse.rs', 'assert'): 0, ('typespec.rs', 'assert'): 0, ('desugar.rs', 'assert'): 0, ('convert.rs', 'assert'): 2,
+    ('parse.rs', 'enum_unwrap'): 20, ('desugar.rs', 'enum_unwrap'): 5, ('typespec.rs', 'enum_unwrap'): 0, ('convert.rs', 'enum_unwrap'): 0,
+    ('parse.rs', 'unwrap-of-collection'): 12, ('typespec.rs', 'unwrap-of-collection'): 12, ('convert.rs', 'unwrap-of-collection'): 2, ('desugar.rs', 'unwrap-of-collection'): 6,
+}
+COLLECTION_TAKES = ('pop', 'pop_front', 'pop_back', 'last', 'first', 'get', 'remove', 'last_mut', 'first_mut', 'next', 'next_back', 'peek')
+
+
+def crash_path_counts(chk, fx):
+    import collections
+    chk.rule('C09-paths', 'no new crash path in the parser: the numbers of `assert!` / `assert_eq!` (not debug_assert), `enum_unwrap!` and `.unwrap()` / `.expect()` taken directly from '
+                          'pop / pop_front / last / first / get / remove / next / peek in parse.rs, typespec.rs, convert.rs and desugar.rs do not exceed the reviewed counts '
+                          '(two such sites were demonstrated to abort on `(x := 1) := 2` and on `a + C::` + block, and repaired)')
+    cnt = collections.Counter()
+    where = collections.defaultdict(list)
+    for file in ('crates/erg_parser/parse.rs', 'crates/erg_parser/typespec.rs', 'crates/erg_parser/convert.rs', 'crates/erg_parser/desugar.rs'):
+        short = file.split('/')[-1]
+        d = fx.file(file, 'erg_parser')
+        for f in d['fns']:
+            seen = set()
+            for n in T.walk(f['body']):
+                m = n.get('m') or []
+                if m and m[0] in ('assert', 'assert_eq', 'assert_ne') and (n.get('l'), m[0]) not in seen:
+                    seen.add((n.get('l'), m[0]))
+                    cnt[(short, 'assert')] += 1
+                    where[(short, 'assert')].append((T.norm(f['path']), n.get('l')))
+                if m and m[0] == 'enum_unwrap' and (n.get('l'), 'eu') not in seen:
+                    seen.add((n.get('l'), 'eu'))
+                    cnt[(short, 'enum_unwrap')] += 1
+                    where[(short, 'enum_unwrap')].append((T.norm(f['path']), n.get('l')))
+                if n.get('k') == 'MCall' and n['n'] in ('unwrap', 'expect') and not n.get('m'):
+                    r = T.peel(n['r'])
+                    if r.get('k') == 'MCall' and r['n'] in COLLECTION_TAKES:
+                        cnt[(short, 'unwrap-of-collection')] += 1
+                        where[(short, 'unwrap-of-collection')].append((T.norm(f['path']), n.get('l')))
+    chk.floor('crash-path constructs counted in the parser', sum(cnt.values()), 40)
+    for key, reviewed in sorted(REVIEWED_CRASH_PATHS.items()):
+        got = cnt.get(key, 0)
+        if got <= reviewed:
+            chk.ok('C09-paths', key, sample='%s: %d %s (reviewed: %d)' % (key[0], got, key[1], reviewed))
+        else:
+            fns_ = collections.Counter(w for w, _ in where[key])
+            chk.bad('C09-paths', key[0], '%s>%d' % (key[1], reviewed), '%s now has %d `%s` sites (reviewed: %d; by function: %s): a parse state the new site does not expect aborts the '
+                    'process instead of producing a syntax error' % (key[0], got, key[1], reviewed, ', '.join('%s x%d' % (k, v) for k, v in fns_.most_common(6))), 'crates/erg_parser/' + key[0], None)
+
+
+def stack_floor(chk, fx):
+    from sa.kinds import casts as K
+    chk.rule('C09-stack', 'while the parser has no depth guard the stack of the analysis thread is the only bound on nesting: erg_common::spawn::STACK_SIZE is at least the reviewed '
+                          '8 MiB in every feature configuration (with it 90 nested parentheses / 45 nested calls parse in a debug build; half of it halves that)')
+    SP = 'crates/erg_common/spawn.rs'
+    consts = [f for f in fx.fns(SP, 'erg_common') if f.get('dk') == 'Const' and f['path'].endswith('STACK_SIZE')]
+    if not chk.need(len(consts) == 1, 'erg_common::spawn::STACK_SIZE not found'):
+        return
+    vals = []
+    body = T.peel(consts[0]['body'])
+
+    def leaves(e):
+        e = T.peel(e)
+        if e.get('k') == 'If' and e.get('e') is not None:
+            return leaves(e['t']) + leaves(e['e'])
+        if e.get('k') == 'Block' and 'e' in e and not e.get('s'):
+            return leaves(e['e'])
+        return [e]
+    for lf in leaves(body):
+        v = K.const_eval(lf)
+        vals.append(v)
+    if not chk.need(vals and all(v is not None for v in vals), 'STACK_SIZE: the value could not be evaluated (%s)' % T.show(body)[:60]):
+        return
+    users = [c for f in fx.fns(SP, 'erg_common') for c in T.walk(f['body']) if c.get('k') == 'MCall' and c['n'] == 'stack_size']
+    chk.need(len(users) >= 1, 'spawn.rs: no thread builder uses stack_size')
+    if min(vals) >= 8 * 1024 * 1024:
+        chk.ok('C09-stack', 'STACK_SIZE', sample='STACK_SIZE = %s bytes' % ' / '.join(str(v) for v in vals))
+    else:
+        chk.bad('C09-stack', 'erg_common::spawn', 'STACK_SIZE', 'STACK_SIZE is %d bytes in some configuration, below the reviewed 8 MiB: the nesting depth at which `erg --mode parse` '
+                'aborts with a stack overflow shrinks in proportion' % min(vals), SP, consts[0]['line'])
+
+
 def run(chk):
     fx = F.Facts()
     chk.rule('C09-guard', 'every recursive cycle of the parser reachable from Parser::parse that goes through a try_reduce_* function contains a depth guard: a comparison of a '
@@ -73,6 +152,8 @@ def run(chk):
         chk.bad('C09-thread', 'spawn::exec_new_thread', 'no-stack_size', 'exec_new_thread no longer sets the enlarged stack size', 'crates/erg_common/spawn.rs', sp['line'])
     eof_rule(chk, fx)
     chk.undecide('panic-freedom of the enum_unwrap!/unwrap sites of the parser on arbitrary token sequences needs invariants of the parse stack: not judged')
+    crash_path_counts(chk, fx)
+    stack_floor(chk, fx)
     return ('Strongly connected components of the resolved call graph of erg_parser (calls exported from typed HIR and MIR) reachable from Parser::parse, searched for depth guards; '
             'who-may-call rule for the enlarged-stack thread. Termination and panic-freedom on arbitrary token sequences are not decided.'), {}
 
